@@ -282,10 +282,10 @@ pub fn script(kind_arg: &str, seed: u64, count: usize) -> Vec<J> {
     };
     let mut out = Vec::new();
     let mut g = Gen::new(seed);
-    let text = kind == "repr" || kind == "pairs_repr";
+    let text = kind == "repr" || kind == "pairs_repr" || kind == "serde_repr";
     for n in 0..count {
         g.fl.clear();
-        g.finite = matches!(kind, "render" | "repr" | "pairs_repr" | "text" | "serde");
+        g.finite = matches!(kind, "render" | "repr" | "pairs_repr" | "text" | "serde" | "serde_repr");
         g.nice_floats = n % 4 != 0;
         let depth = if n % 7 == 0 { 4 } else { 3 };
         let d = g.doc(depth, 4);
@@ -295,7 +295,7 @@ pub fn script(kind_arg: &str, seed: u64, count: usize) -> Vec<J> {
                 if n % 2 == 0 { json!({"op":"roundtrip","d":[t],"a":{}}) } else { json!({"op":"to_vec","d":[t],"a":{"pre":pre_of(&mut g)}}) }
             }
             "render" => json!({"op":"render","d":[t],"a":{}}),
-            "serde" => json!({"op":"serde","d":[t],"a":{}}),
+            "serde" | "serde_repr" => json!({"op":"serde","d":[t],"a":{}}),
             "acc" | "repr" if n % 3 != 2 => {
                 let a = match n % 12 {
                     0 => json!({"op":"get_by_index","a":{"i": g.r.gen_range(0..6)}}),
